@@ -31,6 +31,8 @@ func main() {
 		cmdDL(os.Args[2:])
 	case "expiry":
 		cmdExpiry(os.Args[2:])
+	case "workers":
+		cmdWorkers(os.Args[2:])
 	case "sshsrv":
 		cmdSSHSrv(os.Args[2:])
 	case "agent":
